@@ -153,5 +153,13 @@ RangeRule        == \A i \in 1..Len(hist) :
                       (hist[i].call.op \in {"HB", "HP", "FD"} /\ i > 1 /\ hist[i-1].running /\ ~InRange(hist[i].call.i))
                          => hist[i].cls = "II"
 
+(* ---------- refinement of the abstract life cycle (DKGLifeAbs.tla; its invariant is proved inductive in DKGLifeProof.tla) ---------- *)
+Life == INSTANCE DKGLifeAbs
+CS(h) == Cardinality({i \in 1..Len(h) : h[i].call.op = "Start" /\ h[i].cls = "nil"})
+CT(h) == IF Proto = "fvss" THEN 0 ELSE Cardinality({i \in 1..Len(h) : h[i].call.op = "NextTimeout" /\ h[i].cls = "nil"})
+CE(h) == Cardinality({i \in 1..Len(h) : h[i].call.op = "End" /\ h[i].cls \in {"keys", "F"}})
+RefinesLife == [][Life!L(Proto # "fvss", phase, nto, CS(hist), CT(hist), CE(hist), phase', nto', CS(hist'), CT(hist'), CE(hist'))]_vars
+LifeInv     == Life!Inv(Proto # "fvss", phase, nto, CS(hist), CT(hist), CE(hist))
+
 Emit == Len(hist) = MaxLen => PrintT(<<"CASE", ToJson([hist |-> hist])>>)
 =============================================================================
